@@ -1,6 +1,7 @@
 import Driver.CscIO
 import ClarabelModel.CscBlocks
 import ClarabelModel.Kkt
+import ClarabelModel.KktPasses
 
 open Clarabel Driver Clarabel.Csc Clarabel.Kkt
 
@@ -143,6 +144,43 @@ def handleGetHs (kv : KV) : Option String := do
     pure s!"Hs={fmtFloats (blocks.map Array.toList).flatten.toArray}"
   pure (fmtME id r)
 
+/-- per-cone scaling data of pass `pre` (`p0`, `p1`, …): `nc=.. p0c0=nn p0c0w=.. …` -/
+def parseScalingsPre (kv : KV) (pre : String) : Option (List (ConeScaling Float)) := do
+  let nc ← kv.nat "nc"
+  (List.range nc).mapM (fun i => do
+    let kind ← kv.get? s!"{pre}c{i}"
+    match kind with
+    | "zero" => pure (.zero (← kv.nat s!"{pre}c{i}dim"))
+    | "nn" => pure (.nonneg (← kv.floats s!"{pre}c{i}w"))
+    | "socd" => pure (.socDense (← kv.floats s!"{pre}c{i}w") (← kv.float s!"{pre}c{i}eta"))
+    | "socs" => pure (.socSparse (← kv.nat s!"{pre}c{i}dim") (← kv.float s!"{pre}c{i}eta")
+        (← kv.floats s!"{pre}c{i}u") (← kv.floats s!"{pre}c{i}v") (← kv.float s!"{pre}c{i}d"))
+    | "dense" => pure (.dense (← kv.floats s!"{pre}c{i}H"))
+    | "genpow" => pure (.genpow (← kv.float s!"{pre}c{i}mu") (← kv.floats s!"{pre}c{i}p")
+        (← kv.floats s!"{pre}c{i}q") (← kv.floats s!"{pre}c{i}r") (← kv.floats s!"{pre}c{i}d1")
+        (← kv.float s!"{pre}c{i}d2"))
+    | _ => none)
+
+/-- `kkt.passes`: assemble, then one `update` per pass on the value array the previous pass left -/
+def handlePasses (kv : KV) : Option String := do
+  let P ← kv.csc "P"
+  let A ← kv.csc "A"
+  let cones ← parseCones kv
+  let shape ← parseTriangle (← kv.get? "shape")
+  let enable ← kv.nat "reg"
+  let const ← kv.float "regconst"
+  let prop ← kv.float "regprop"
+  let np ← kv.nat "np"
+  let hist ← (List.range np).mapM (fun k => parseScalingsPre kv s!"p{k}")
+  let r : MErr String := do
+    let (K, mp) ← assembleKktMatrix P A cones shape
+    let signs ← fillSigns A.m A.n mp.sparse_maps
+    let outs ← runPasses mp signs (enable != 0) const prop K.nzval hist
+    let parts := outs.zipIdx.map (fun p =>
+      s!" p{p.2}nzval={fmtFloats p.1.nzval} p{p.2}nzfactor={fmtFloats p.1.nzFactor} p{p.2}eps={fmtFloat p.1.eps}")
+    pure (s!"np={outs.length}" ++ String.join parts)
+  pure (fmtME id r)
+
 def handle (ch : String) (kv : KV) : String :=
   let r :=
     if ch.startsWith "blk." then
@@ -153,6 +191,7 @@ def handle (ch : String) (kv : KV) : String :=
       | "kkt.assemble" => handleAssemble kv
       | "kkt.update" => handleUpdate kv
       | "kkt.get_hs" => handleGetHs kv
+      | "kkt.passes" => handlePasses kv
       | _ => some "unknown-channel"
   r.getD "bad-request"
 
